@@ -65,6 +65,7 @@ def store_nibabel_image_to_fullres_info(img,
                             mime_type="application/json")
     except DataAccessError as exc:
         logger.error("cannot write transform.json: %s", exc)
+        return 1
     logger.info("Neuroglancer transform of the converted volume "
                 "(written to transform.json):\n%s",
                 neuroglancer_scripts.transform.matrix_as_compact_urlsafe_json(
